@@ -1110,4 +1110,6 @@ pub fn run(run: &Run) {
     drive(run, "b", 2, n_fonts - n_fonts * 2 / 3, &case_b);
     drive(run, "c", 3, n_maps / 2, &case_c);
     drive(run, "d", 4, n_maps - n_maps / 2, &case_d);
+    // thorough: the same quick workload once more under the AddressSanitizer build (memory errors in the library or its dependencies)
+    if !run.quick() { crate::lanes::asan_rerun(run); }
 }
